@@ -245,7 +245,11 @@ impl ValveProtocol {
             true => {
                 Some(ModData {
                     link: buffer.read_string::<Utf8Decoder>(None)?,
-                    download_link: buffer.read_string::<Utf8Decoder>(None)?,
+                    download_link: {
+                        let download_link = buffer.read_string::<Utf8Decoder>(None)?;
+                        buffer.move_cursor(1)?; // skip the NULL byte that follows the download link
+                        download_link
+                    },
                     version: buffer.read()?,
                     size: buffer.read()?,
                     multiplayer_only: buffer.read::<u8>()? == 1,
